@@ -129,6 +129,19 @@ proof fn lemma_shl_finish(s: Seq<Limb>, res: int, c: int, n: nat, sn: nat, rem: 
     lemma_shl_limbs_mod(s, n, sn, rem, shift);
 }
 
+/// limb-aligned left shift (rem == 0): kept out of the big function context, where the same three steps were flaky
+proof fn lemma_shl_rem0(s: Seq<Limb>, p1: Seq<Limb>, n: nat, sn: nat, shift: nat)
+    requires sn < n, shift == 64 * sn, val(p1, n) == val(s, (n - sn) as nat) * bp(sn)
+    ensures val(p1, n) == (val(s, n) * p2(shift)) % bp(n)
+{
+    let x = val(p1, n);
+    lemma_pow2_64(); lemma_val_bound(p1, n);
+    assert(p2(0) == 1) by { lemma2_to64(); }
+    assert(x + 0 * bp(n) == val(s, (n - sn) as nat) * bp(sn) * p2(0)) by (nonlinear_arith)
+        requires x == val(s, (n - sn) as nat) * bp(sn), p2(0) == 1;
+    lemma_shl_finish(s, x, 0, n, sn, 0, shift);
+}
+
 /// dividing by 2^(64*sn + rem) drops the low sn limbs, then divides by 2^rem
 proof fn lemma_shr_limbs_div(v: int, lo: int, hi: int, sn: nat, rem: nat, shift: nat)
     requires v == lo + hi * bp(sn), 0 <= lo < bp(sn), hi >= 0, shift == 64 * sn + rem
@@ -1281,11 +1294,11 @@ pub const fn overflowing_shl_vartime(&self, shift: u32) -> (ret__: ConstCtOption
         assert((sn + m) as nat == LIMBS as nat);
         assert(val(p1, LIMBS as nat) == lowv * bp(sn));
         if rem == 0 {
-            let x = val(p1, LIMBS as nat);
-            lemma_pow2_64(); lemma_val_bound(p1, LIMBS as nat);
-            assert(0 <= x < bp(LIMBS as nat));
-            assert(x + 0 * bp(LIMBS as nat) == lowv * bp(sn) * p2(0)) by (nonlinear_arith) requires x == lowv * bp(sn), p2(0) == 1;
-            lemma_shl_finish(self.limbs@, x, 0, LIMBS as nat, sn, 0, shift as nat);
+            assert(shift as nat == 64 * sn) by {
+                assert(shift_num as int == shift as int / 64 && rem as int == shift as int % 64);
+                lemma_fundamental_div_mod(shift as int, 64);
+            }
+            lemma_shl_rem0(self.limbs@, p1, LIMBS as nat, sn, shift as nat);
         }
     }
 //@-
